@@ -1,0 +1,108 @@
+//go:build verif
+
+package tbtc
+
+import (
+	"context"
+	"crypto/ecdsa"
+	"math/big"
+
+	"github.com/keep-network/keep-core/pkg/protocol/group"
+	"github.com/keep-network/keep-core/pkg/tecdsa"
+)
+
+// Verification hook (build tag verif): re-exports existing identifiers only.
+// The heartbeat action depends on two unexported interfaces (signing executor,
+// inactivity claim executor); the adapters below let a caller outside the
+// package supply them as plain functions.
+
+const (
+	VerifC36MinimumActiveMembers         = heartbeatSigningMinimumActiveMembers
+	VerifC36ConsecutiveFailureThreshold  = heartbeatConsecutiveFailureThreshold
+	VerifC36InactivityClaimValidityBlock = heartbeatInactivityClaimValidityBlocks
+	VerifC36TotalProposalValidityBlocks  = heartbeatTotalProposalValidityBlocks
+)
+
+// VerifC36SignFn stands for heartbeatSigningExecutor.sign; it returns the
+// activity report's member lists or an error.
+type VerifC36SignFn func(message *big.Int, startBlock uint64) (
+	active []group.MemberIndex,
+	inactive []group.MemberIndex,
+	err error,
+)
+
+// VerifC36ClaimFn stands for heartbeatInactivityClaimExecutor.claimInactivity.
+type VerifC36ClaimFn func(
+	inactiveMembersIndexes []group.MemberIndex,
+	heartbeatFailed bool,
+	sessionID *big.Int,
+) error
+
+type verifC36Signer struct{ fn VerifC36SignFn }
+
+func (s *verifC36Signer) sign(
+	ctx context.Context,
+	message *big.Int,
+	startBlock uint64,
+) (*tecdsa.Signature, *signingActivityReport, uint64, error) {
+	active, inactive, err := s.fn(message, startBlock)
+	if err != nil {
+		return nil, nil, 0, err
+	}
+	return &tecdsa.Signature{
+			R: big.NewInt(1), S: big.NewInt(1),
+		}, &signingActivityReport{
+			activeMembers:   active,
+			inactiveMembers: inactive,
+		}, startBlock + 1, nil
+}
+
+type verifC36Claimer struct{ fn VerifC36ClaimFn }
+
+func (c *verifC36Claimer) claimInactivity(
+	ctx context.Context,
+	inactiveMembersIndexes []group.MemberIndex,
+	heartbeatFailed bool,
+	sessionID *big.Int,
+) error {
+	return c.fn(inactiveMembersIndexes, heartbeatFailed, sessionID)
+}
+
+// VerifC36Heartbeat owns one heartbeatFailureCounter, as the node does.
+type VerifC36Heartbeat struct{ counter *heartbeatFailureCounter }
+
+func VerifC36NewHeartbeat() *VerifC36Heartbeat {
+	return &VerifC36Heartbeat{counter: newHeartbeatFailureCounter()}
+}
+
+// VerifC36Count reads the failure counter of the given wallet key.
+func (h *VerifC36Heartbeat) VerifC36Count(walletKey string) uint {
+	return h.counter.get(walletKey)
+}
+
+// VerifC36Execute builds a heartbeatAction with newHeartbeatAction and runs
+// its execute method.
+func (h *VerifC36Heartbeat) VerifC36Execute(
+	chain Chain,
+	walletPublicKey *ecdsa.PublicKey,
+	proposal *HeartbeatProposal,
+	signFn VerifC36SignFn,
+	claimFn VerifC36ClaimFn,
+	startBlock uint64,
+	expiryBlock uint64,
+) error {
+	return newHeartbeatAction(
+		logger,
+		chain,
+		wallet{publicKey: walletPublicKey},
+		&verifC36Signer{signFn},
+		proposal,
+		h.counter,
+		&verifC36Claimer{claimFn},
+		startBlock,
+		expiryBlock,
+		func(ctx context.Context, blockHeight uint64) error {
+			return nil
+		},
+	).execute()
+}
